@@ -34,11 +34,11 @@ CTOR_TO_FUNC = {"frame_style": "centered"}
 
 
 def run(ctx):
-    geom_twin(ctx)
-    mirror_twin(ctx)
-    nameflow(ctx)
-    reductions(ctx)
-    wrappers(ctx)
+    ctx.rule(geom_twin)
+    ctx.rule(mirror_twin)
+    ctx.rule(nameflow)
+    ctx.rule(reductions)
+    ctx.rule(wrappers)
 
 
 def geom_twin(ctx, R="R-C14-geom-twin"):
